@@ -6,12 +6,16 @@
 package c17
 
 import (
+	"bufio"
 	"bytes"
 	"encoding/json"
 	"errors"
 	"fmt"
+	"io"
+	"os"
 	"sort"
 	"strings"
+	"testing/iotest"
 
 	"go.starlark.net/starlark"
 
@@ -20,16 +24,16 @@ import (
 )
 
 type kase struct {
-	Src  string       `json:"src"`
-	Opts prog.Options `json:"opts"`
-	File *string      `json:"file,omitempty"` // file name given to the compiler (nil: p.star)
+	Src     string       `json:"src"`
+	Opts    prog.Options `json:"opts"`
+	File    *string      `json:"file,omitempty"` // file name given to the compiler (nil: p.star)
+	Readers bool         `json:"readers,omitempty"`
 }
 
 // fileNames: the name under which the program is compiled is data: it comes
 // back from Filename, in every position, backtrace and load position.
 var fileNames = []string{"", ".", "./p.star", "a/../p.star", "a//b.star", "a/./b.star", "/abs/p.star", "//lib/defs:rules.star", "https://example.com/x/../p.star?q=1",
 	"C:\\dir\\p.star", "dir\\..\\p.star", "p.star/", " p.star ", "p\x00q.star", "é日本.star", "\xff\xfe.star", "a\nb.star", strings.Repeat("n", 300) + ".star"}
-
 
 type obs struct {
 	trace     []string
@@ -253,6 +257,65 @@ func checkOneNamed(file, src string, o prog.Options) (diff string, ran bool, non
 	return "", true, len(a.trace) > 0 || a.err != "" || a.funcs != ""
 }
 
+// checkReaders: CompiledProgram takes any io.Reader. The bytes of the program
+// are handed over one byte at a time, through a bufio.Reader, and from a file
+// that the host has already read a header of (a cache file); each program read
+// must write the original bytes again.
+func checkReaders(src string, o prog.Options) (diff string, ran bool) {
+	defer func() {
+		if r := recover(); r != nil {
+			diff = fmt.Sprintf("panic while reading a program: %v", r)
+			ran = true
+		}
+	}()
+	env := prog.NewEnv()
+	_, p, err := starlark.SourceProgramOptions(o.FileOptions(), "p.star", src, env.Predeclared.Has)
+	if err != nil {
+		return "", false
+	}
+	var b1 bytes.Buffer
+	if err := p.Write(&b1); err != nil {
+		return "Write failed: " + err.Error(), true
+	}
+	const header = "HOST-CACHE-HEADER\x00\x01"
+	f, err := os.CreateTemp(fw.BinDir(), "c17-*.bin")
+	if err != nil {
+		fw.Fatal("c17: %v", err)
+	}
+	defer os.Remove(f.Name())
+	defer f.Close()
+	f.WriteString(header)
+	f.Write(b1.Bytes())
+	readers := []struct {
+		name string
+		mk   func() io.Reader
+	}{
+		{"one byte at a time", func() io.Reader { return iotest.OneByteReader(bytes.NewReader(b1.Bytes())) }},
+		{"bufio.Reader", func() io.Reader { return bufio.NewReaderSize(bytes.NewReader(b1.Bytes()), 16) }},
+		{"a reader that returns data together with io.EOF", func() io.Reader { return iotest.DataErrReader(bytes.NewReader(b1.Bytes())) }},
+		{"*os.File positioned after a host header", func() io.Reader {
+			f.Seek(0, io.SeekStart)
+			io.ReadFull(f, make([]byte, len(header)))
+			return f
+		}},
+		{"*os.File read through io.LimitReader", func() io.Reader {
+			f.Seek(int64(len(header)), io.SeekStart)
+			return io.LimitReader(f, int64(b1.Len()))
+		}},
+	}
+	for _, r := range readers {
+		q, err := starlark.CompiledProgram(r.mk())
+		if err != nil {
+			return fmt.Sprintf("CompiledProgram(%s) failed on the bytes just written: %v", r.name, err), true
+		}
+		var b2 bytes.Buffer
+		if err := q.Write(&b2); err != nil || !bytes.Equal(b1.Bytes(), b2.Bytes()) {
+			return fmt.Sprintf("the program read from %s re-encodes differently (err=%v, %d vs %d bytes)", r.name, err, b2.Len(), b1.Len()), true
+		}
+	}
+	return "", true
+}
+
 func worker(c *fw.Ctx) *fw.Stats {
 	st := fw.NewStats()
 	nviol := 0
@@ -292,6 +355,15 @@ func worker(c *fw.Ctx) *fw.Stats {
 			}
 			report(f, o, diff)
 			if o == all {
+				if d, ran := checkReaders(f, o); ran {
+					st.Evals++
+					st.Outcome("feature-through-other-readers")
+					if d != "" && nviol < 10 {
+						nviol++
+						rd := "readers"
+						st.Violate(fmt.Sprintf("readers: %s %.200s", o.String(), f), d, kase{Src: f, Opts: o, File: &rd, Readers: true})
+					}
+				}
 				for ni := range fileNames {
 					name := fileNames[ni]
 					diff, ran, _ := checkOneNamed(name, f, o)
@@ -374,6 +446,12 @@ func replay(c *fw.Ctx, raw json.RawMessage) []fw.Viol {
 	if err := json.Unmarshal(raw, &k); err != nil {
 		fw.Fatal("bad case: %v", err)
 	}
+	if k.Readers {
+		if d, _ := checkReaders(k.Src, k.Opts); d != "" {
+			return []fw.Viol{{Key: fmt.Sprintf("readers: %s %.200s", k.Opts.String(), k.Src), What: d}}
+		}
+		return nil
+	}
 	if k.File != nil {
 		if diff, _, _ := checkOneNamed(*k.File, k.Src, k.Opts); diff != "" {
 			return []fw.Viol{{Key: fmt.Sprintf("file name %q: %s %.200s", *k.File, k.Opts.String(), k.Src), What: diff}}
@@ -395,7 +473,7 @@ func init() {
 	fw.Register(&fw.Prop{
 		ID:    "C17",
 		Level: "exploration",
-		Rule: "the scale profile (15 templates in which one table of the compiled form has n members, n on both sides of 2^7, 2^8, 2^14, thorough 2^16); every program of the feature profile (also compiled under each of 18 file names: empty, dot segments, doubled slashes, labels, URLs, backslashes, NUL, non-UTF-8, 300 bytes; each constant kind, cells/free variables, keyword-only parameters, varargs/kwargs, docstrings, several loads, recursion flag, saturated position deltas) and of the C01 grammar profiles up to the completed size level; integer constants on both sides of every width boundary in both signs; after the comparison of the two executions the original and the reloaded program are written again (same bytes) and executed again, as is a program read from a *bytes.Buffer that was then overwritten and refilled: " +
+		Rule: "every feature program is also read back one byte at a time, through bufio, from a reader that returns data with io.EOF, and from a file positioned after a host header; the scale profile (15 templates in which one table of the compiled form has n members, n on both sides of 2^7, 2^8, 2^14, thorough 2^16); every program of the feature profile (also compiled under each of 18 file names: empty, dot segments, doubled slashes, labels, URLs, backslashes, NUL, non-UTF-8, 300 bytes; each constant kind, cells/free variables, keyword-only parameters, varargs/kwargs, docstrings, several loads, recursion flag, saturated position deltas) and of the C01 grammar profiles up to the completed size level; integer constants on both sides of every width boundary in both signs; after the comparison of the two executions the original and the reloaded program are written again (same bytes) and executed again, as is a program read from a *bytes.Buffer that was then overwritten and refilled: " +
 			"compile, Write, CompiledProgram, Write again (bytes must be equal), execute both programs in identical fresh environments and compare probe trace, globals, error text, call stack positions, backtrace, function metadata, load list and step count; " +
 			"non-trivial = programs with a side effect, an error or at least one function value",
 		Run: run, Worker: worker, Replay: replay,
